@@ -2182,8 +2182,11 @@ class unyt_array(np.ndarray):
          [8. 8.]] km*s**2
         """
         res_units = self.units * getattr(b, "units", NULL_UNIT)
-        ret = self.view(np.ndarray).dot(np.asarray(b), out=out) * res_units
-        if out is not None:
+        # numpy writes into (and returns) a plain view of out, so that the units
+        # out had before do not leak into the result
+        out_view = None if out is None else out.view(np.ndarray)
+        ret = self.view(np.ndarray).dot(np.asarray(b), out=out_view) * res_units
+        if isinstance(out, unyt_array):
             out.units = res_units
         return ret
 
